@@ -104,6 +104,26 @@ CHECKS["C10"] = ("RequestBody.tla",
     "Trusted: TLC, harness/vloop.py. Outcome-level refinement: intermediate states of the real object are not compared.",
     "DESIGN.md 5 C10")
 
+CHECKS["C01"] = ("Multipart.tla",
+    "TLC exhaustive model check of the decoder state machine (its three regular expressions transcribed on symbol sequences, "
+    "the hold-back rule) and the helpers' event loop over every chunking of every encoded form (PrefixOK, Exact); every edge of "
+    "the state graph executed once on a real MultipartDecoder by DFS with snapshots; every form decoded by parse_stream, "
+    "parse_async_stream, wsgi/asgi Request.form under byte-level chunkings",
+    "Forms with 0-2 parts, field and file, all contents up to 3 symbols over {CR, LF, '-', boundary char, other} that do not "
+    "contain the delimiter, optional preamble, all chunkings with chunks of 0..3 (thorough 4) symbols; four boundary "
+    "concretisations incl. regex metacharacters and 70 characters; cuts inside header text at helper level.",
+    "Trusted: TLC, the symbol->byte concretisation, Python's re for these three patterns (drift would show a mismatch).",
+    "DESIGN.md 5 C01")
+CHECKS["C15"] = ("Multipart.tla",
+    "TLC exhaustive model check with the limit grid (LimitExact, NoEarly413, BoundedHold over every chunking); witness "
+    "HoldFix=FALSE must violate BoundedHold; every (form, limits) scenario run on both helpers under byte-level chunkings; "
+    "buffering measured on the real decoder and helpers with megabyte parts after a leading CR/LF",
+    "Limits at the exact totals -1/0/+1 for parts and field bytes, sync = async, 324/325 parts on the form accessors; the "
+    "buffering bound chunk + delimiter + constant is checked in the model for contents longer than the bound and on the "
+    "implementation with 1-4 MiB parts.",
+    "Trusted: TLC; the sink-lag measurement in the adapter. Header blocks are outside the buffering bound.",
+    "DESIGN.md 5 C15")
+
 NOT_YET = {}
 
 ALL = ["C%02d" % i for i in range(1, 21)]
